@@ -72,7 +72,16 @@ def _perturb_variables(
 ) -> NDArray[np.float64]:
     if config.gradient.samplers is None:
         assert samplers[0] is not None
-        samples = samplers[0].generate_samples()
+        # A shared sampler may return a single set of perturbations (first
+        # dimension of length one), that is used for all realizations:
+        samples = np.broadcast_to(
+            samplers[0].generate_samples(),
+            (
+                config.realizations.weights.size,
+                config.gradient.number_of_perturbations,
+                variables.shape[-1],
+            ),
+        )
     else:
         # The results should be independent of the order of the samplers,
         # reordering would affect the random numbers they are based on. We
